@@ -70,7 +70,8 @@ def build(case):
         exp = "x" + v
     expargs = [nb_value, "p2"]
     expargs.insert(pos, exp)
-    return pre + "vp_argv " + " ".join(words), extra, expargs
+    company = {None: "", "in-file": " < f", "here-string": " <<< hs", "out-file": " > o.txt"}[case.get("company")]
+    return pre + "vp_argv " + " ".join(words) + company, extra, expargs
 
 
 def run_case(case):
@@ -90,6 +91,9 @@ def symptom(case, expargs, r, recs, before, after):
         return "hang" if r.diag and all(p["cpu_ticks"] == 0 for p in r.diag["procs"]) else "TIMEOUT"
     if crashed(r):
         return "shell-crash"
+    company = case.get("company")
+    if company == "out-file":
+        after = {k: v for k, v in after.items() if k != "o.txt"}
     if after != before:
         return "file-created-or-changed"
     main = [x for x in recs if x["name"] == "vp_argv"]
@@ -109,9 +113,18 @@ def symptom(case, expargs, r, recs, before, after):
     if m["ppid"] != r.pid:
         return "ran-in-background"
     st = m["std"]
-    if st[0] is None or st[0][2] != "chr":
+    if company in ("in-file", "here-string"):
+        # the genuine input redirection written on the line must still be the one applied
+        if st[0] is None or st[0][2] == "chr":
+            return "genuine-input-redirection-lost"
+        if company == "in-file" and (st[0][2] != "reg" or st[0][1] != os.stat(os.path.join(_sb.work, "f")).st_ino):
+            return "stdin-is-not-the-file-written-on-the-line"
+    elif st[0] is None or st[0][2] != "chr":
         return "stdin-redirected"
-    if st[1] is None or st[1][1] != r.stdout_ino:
+    if company == "out-file":
+        if st[1] is None or st[1][2] != "reg" or st[1][1] != os.stat(os.path.join(_sb.work, "o.txt")).st_ino:
+            return "stdout-is-not-the-file-written-on-the-line"
+    elif st[1] is None or st[1][1] != r.stdout_ino:
         return "stdout-redirected"
     if st[2] is None or st[2][1] != r.stderr_ino:
         return "stderr-redirected"
@@ -130,9 +143,10 @@ def judge(case):
         return ("held", None, res)
     if sym == "TIMEOUT":
         return ("inconclusive", "timeout", res)
-    return ("violated", "C13:%s:%s:value=%s:pos=%s:neighbour=%s:%s" % (
+    return ("violated", "C13:%s:%s:value=%s:pos=%s:neighbour=%s%s:%s" % (
         case["delivery"], case["quote"], case["cls"], ["first", "middle", "last"][case["pos"]],
-        NEIGHBOURS[case.get("nb", 0)][0].replace(":", ""), sym), res)
+        NEIGHBOURS[case.get("nb", 0)][0].replace(":", ""),
+        (":with-genuine-" + case["company"]) if case.get("company") else "", sym), res)
 
 
 def gen_cases(tier):
@@ -148,6 +162,9 @@ def gen_cases(tier):
                     for pos in (0, 1, 2):
                         for nb in range(len(NEIGHBOURS)):
                             cases.append({"value": v, "cls": cls, "delivery": deliv, "quote": quote, "pos": pos, "nb": nb})
+                        # the same command also carries a genuine redirection written on the line
+                        for company in ("in-file", "here-string", "out-file"):
+                            cases.append({"value": v, "cls": cls, "delivery": deliv, "quote": quote, "pos": pos, "nb": 0, "company": company})
     return cases
 
 
@@ -166,7 +183,8 @@ def run(tier, seed):
     rep.rule = ("every value of 6 operator classes (> a>b >>zz | a|b & 'x &' && <f <<< 2>&1 ;x #c ...) x delivery "
                 "{$V exported, ${V}, $V assigned in the line, $(cmd), `cmd`, * match of a file with that name} x "
                 "{unquoted, double-quoted} x argument position {first, middle, last} x 7 neighbouring words (plain, quoted, "
-                "backslash-tagged, empty): enumerated completely.  "
+                "backslash-tagged, empty): enumerated completely; every combination again (plain neighbour) with a genuine "
+                "`< f` / `<<< hs` / `> o.txt` written on the same command, which must still be the redirection applied.  "
                 "Thorough repeats the enumeration with longer random values built from the same operator characters.  "
                 "Non-trivial = always; distinct by case.")
     rep.assumptions = ["unquoted results are compared modulo blank runs"]
@@ -182,7 +200,8 @@ def run(tier, seed):
                 continue
             cls = "random-mix"
             cases.append({"value": v, "cls": cls, "delivery": rng.choice(["var", "var-brace", "assigned-var", "dollar-sub", "backquote-sub", "glob"]),
-                          "quote": rng.choice(["unq", "dq"]), "pos": rng.randrange(3), "nb": rng.randrange(len(NEIGHBOURS))})
+                          "quote": rng.choice(["unq", "dq"]), "pos": rng.randrange(3), "nb": rng.randrange(len(NEIGHBOURS)),
+                          "company": rng.choice([None, None, "in-file", "here-string", "out-file"])})
     results = common.pmap(_work, cases, init=_init, initargs=(cicada,), chunksize=8)
     for case, (verdict, sig, res) in zip(cases, results):
         rep.case(json.dumps(case, sort_keys=True), True, sample={"line": res.get("line"), "value": case["value"]})
